@@ -312,8 +312,9 @@ def check_body(fn, octets, p, via):
              "Q 0,1,2 (every entry symbolic) and 40 (entries 0,1,20,39 symbolic, the others distinct concrete "
              "fillers); T 0..4 and 8 (every entry symbolic), 40 (12 entries symbolic) and every size 0..40 with "
              "first and last entry symbolic. NPDU: Q 0..6 octets and T 0..16, 240..256 octets with length and "
-             "every octet symbolic; Q lengths 245,246,251,252 (frame length crossing 255/256), 1400, 1497 with 8 "
-             "symbolic octets (first, last, equidistant) in a fixed non-periodic pattern; T 1400 and 1497 with "
+             "every octet symbolic; Q 18 boundary lengths 7..1476 (powers of two, frame length crossing 255/256, "
+             "Ethernet-sized), 1400 and 1497 with 8 symbolic octets (first, last, equidistant) in a fixed "
+             "pattern without short period; T 1400 and 1497 with "
              "200 symbolic octets, and EVERY length 0..1497 with 8 symbolic octets in the pattern (all octets "
              "symbolic below 9). Table addresses are built from the (integer IPv4, port) tuple form; single "
              "addresses (Forwarded-NPDU, Delete-FDT-Entry) also from literal IPv4 octets / dotted text "
@@ -577,6 +578,9 @@ def ip_forms(d):
 
 
 # ------------------------------------------------------------------ instances
+QUICK_LENS = [7, 16, 63, 64, 127, 128, 245, 246, 251, 252, 255, 256, 511, 512, 1020, 1024, 1472, 1476]
+
+
 def instances(tier):
     q = tier == "quick"
     out = []
@@ -599,8 +603,10 @@ def instances(tier):
     for fn in R.HAS_NPDU:
         rt(fn, "npdu=0..%d" % (6 if q else 16), paylo=0, payhi=6 if q else 16)
         if q:
-            # total frame length crossing 255/256 (the first length octet comes into use)
-            rt(fn, "npdu in 245,246,251,252 (8 symbolic)", lens=[245, 246, 251, 252], fill=8)
+            # powers of two, total frame length crossing 255/256 (245/246 + 10, 251/252 + 4:
+            # the first length octet comes into use), Ethernet-sized NPDUs
+            rt(fn, "npdu of %d boundary lengths (8 symbolic)" % len(QUICK_LENS), lens=QUICK_LENS, fill=8,
+               forms=False)
         else:
             rt(fn, "npdu=240..256", paylo=240, payhi=256, forms=False)
             # every NPDU length of the quantifier, 16 slices
@@ -612,7 +618,7 @@ def instances(tier):
             rt(fn, "npdu=%d (%d symbolic)" % (ln, k), paylo=ln, payhi=ln, fill=k)
     for fn in range(12):
         out.append(Inst(bvll_length_guard, dict(fn=fn), budget=b, label="fn=%d %s" % (fn, R.NAMES[fn])))
-    out.append(Inst(bvlpdu_length_guard, dict(maxlen=16 if q else 300), budget=b))
+    out.append(Inst(bvlpdu_length_guard, dict(maxlen=16 if q else 160), budget=b))
     n = 26 if q else 104
     for part in range(13):
         out.append(Inst(bvll_decode_total, dict(n=n, part=part), budget=b,
